@@ -84,3 +84,22 @@ Definition differ (seed : Z) (stack : list Z) (b1 b2 : list instr) : Z :=
 (* depth of initial stack the original needs *)
 Definition need (b : list instr) : nat :=
   match symexec b sinit with Some s => s_base s | None => 0 end.
+
+(* the same search for a symbolic state (the denotation of a specification under a schedule)
+   against a block *)
+Definition differ_sym (seed : Z) (stack : list Z) (ss : sstate) (b : list instr) : Z :=
+  let e := test_env seed in
+  let s0 := test_state seed stack in
+  let r := rho0 e s0 in
+  match exec e b s0 with
+  | None => 5
+  | Some c =>
+    if (length stack <? s_base ss)%nat then 5
+    else if negb (lzeq (stk c) (map (evalw r) (s_stk ss) ++ skipn (s_base ss) stack)) then 2
+    else
+      let pm := probes_m r (s_mem ss) ++ match symexec b sinit with Some s2 => probes_m r (s_mem s2) | None => [] end in
+      let ps := probes_s r (s_sto ss) ++ match symexec b sinit with Some s2 => probes_s r (s_sto s2) | None => [] end in
+      if negb (forallb (fun x => Z.eqb (mem c x) (evalm r (s_mem ss) x)) pm) then 3
+      else if negb (forallb (fun k => Z.eqb (sto c k) (evals r (s_sto ss) k)) ps) then 4
+      else 0
+  end.
